@@ -153,6 +153,21 @@ template <class A> static Verdict check_type(const Fields &f, bool *relativeBran
     }
     return fail("resolves back to '" + esc(ttext) + "', not to S" + note);
   }
+  // a reference is text in the end: the way back must also work from the reference as written out and read again
+  {
+    VF_REQUIRE(uriref_matcher().matches(dtext), "%s: the created reference '%s' is not a valid URI reference", A::name(), esc(dtext).c_str());
+    Parsed<A> pd;
+    parse_via<A>(pd, PE_SINGLE_EX, widen<Ch>(dtext));
+    if (pd.rc != 0) return fail("the created reference does not parse (rc=" + std::to_string(pd.rc) + ")");
+    typename A::Uri t2;
+    memset(&t2, 0xA5, sizeof t2);
+    int rc3 = A::AddBaseUri(&t2, &pd.uri, Bp);
+    Cl ct2{&t2, nullptr, true};
+    if (rc3 != 0) return fail("resolving the written-out reference against B fails with rc=" + std::to_string(rc3));
+    Snap T2 = snapshot<A>(t2);
+    bool back2 = T2.scheme == S.scheme && same_authority(T2, S) && norm_path(T2) == norm_path(S) && T2.query == S.query && T2.frag == S.frag;
+    if (!back2) { std::string t2text; to_string<A>(t2, &t2text); return fail("written out and read again it resolves to '" + esc(t2text) + "', not to S"); }
+  }
   // shape clauses
   bool sameScheme = S.scheme == B.scheme;
   if (!sameScheme) {
